@@ -126,7 +126,7 @@ def _buffer_trace(copy, dcs):
                     mv = ev(pre[0].slice.upper)
                 out['copy'] = (lo, hi, mv, get('_pos'), get('_size'), get('len(block)'))
             elif isinstance(st, ast.If):
-                if any(d in list(ast.walk(st)) for d in dcs if '_buffer' in unparse(d.value.args[0])):
+                if any(d in list(ast.walk(st)) for d in dcs if getattr(d, '_buffered', '_buffer' in unparse(d.value.args[0]))):
                     t = st.test
                     diff = None
                     if isinstance(t, ast.Compare) and len(t.ops) == 1 and isinstance(t.ops[0], ast.Eq):
@@ -152,6 +152,10 @@ def _buffer_trace(copy, dcs):
 def run(chk):
     src = chk.src
     dfn, cfn = src.func(AS, D), src.func(AS, C)
+    from ..core.srcmodel import sink_optional_tail
+    for _ in range(3):
+        if not sink_optional_tail(dfn.body):       # `frame = None; if ...: frame = ...; if frame is not None: <decompress tail>` -> tail in each arm
+            break
     chk.explanation = ('Chunk independence is a history property; decided here are the pairing/agreement conditions of the frame '
                        'reassembly machine that are necessary for it, on every path of the structured control flow: writer and reader '
                        'use one length-prefix format and every literal header length equals its size (S1); every prefix that is read '
@@ -172,6 +176,10 @@ def run(chk):
         for n in walk_no_nested(fn):
             if isinstance(n, ast.Call) and dotted(n.func) in ('struct.pack', 'struct.unpack') and n.args and isinstance(n.args[0], ast.Constant):
                 fmts.append((dotted(n.func), n.args[0].value, n))
+            # int.from_bytes(x, 'big') of the 4 prefix bytes is the unsigned big-endian decode '!I' (the 4 comes from the literal lengths below)
+            if isinstance(n, ast.Call) and dotted(n.func) == 'int.from_bytes' and len(n.args) == 2 and isinstance(n.args[1], ast.Constant):
+                signed_ = any(k_.arg == 'signed' and not (isinstance(k_.value, ast.Constant) and k_.value.value is False) for k_ in n.keywords)
+                fmts.append(('struct.unpack', {('big', False): '!I', ('little', False): '<I', ('big', True): '!i', ('little', True): '<i'}.get((n.args[1].value, signed_), '?'), n))
     packs = [f for f in fmts if f[0] == 'struct.pack']
     unpacks = [f for f in fmts if f[0] == 'struct.unpack']
     if not packs or not unpacks:
@@ -219,7 +227,7 @@ def run(chk):
             return None if x is None or y is None else x + y
         return None
     for u in unpacks:
-        a = u[2].args[1]
+        a = u[2].args[1] if dotted(u[2].func) == 'struct.unpack' else u[2].args[0]      # int.from_bytes(x, 'big'): the bytes come first
         bl = bytes_len(a)
         # `_partial_len` alone is complete (== hlen) on the path where it is unpacked: checked by the fill logic (S2)
         okk = unparse(a) == '_partial_len' or (bl is not None and bl == Lin.const(hlen))
@@ -288,8 +296,8 @@ def run(chk):
     # the stashed length prefix is a one-shot state: on the path that decodes it (struct.unpack of _partial_len) it is emptied
     # again before the path leaves that statement list; otherwise the next frame's prefix is "completed" with 0 more bytes and
     # the old length is decoded again without consuming the new prefix
-    dec = [n for n in walk_no_nested(W) if isinstance(n, ast.Assign) and any(isinstance(c_, ast.Call) and dotted(c_.func) == 'struct.unpack' and len(c_.args) == 2
-                                                                            and any(isinstance(x_, ast.Name) and x_.id == '_partial_len' for x_ in ast.walk(c_.args[1]))
+    dec = [n for n in walk_no_nested(W) if isinstance(n, ast.Assign) and any(isinstance(c_, ast.Call) and dotted(c_.func) in ('struct.unpack', 'int.from_bytes') and len(c_.args) == 2
+                                                                            and any(isinstance(x_, ast.Name) and x_.id == '_partial_len' for x_ in ast.walk(c_.args[1] if dotted(c_.func) == 'struct.unpack' else c_.args[0]))
                                                                             for c_ in ast.walk(n.value))]
     for d_ in dec:
         blk_ = getattr(d_._parent, 'body', []) if d_ in getattr(d_._parent, 'body', []) else getattr(d_._parent, 'orelse', [])
@@ -313,11 +321,26 @@ def run(chk):
         okd = dest == 'out + bytesout'
         okb = any(isinstance(s, ast.AugAssign) and unparse(s.target) == 'bytesout' and isinstance(s.op, ast.Add) and unparse(s.value) == res for s in rest)
         oks = any(isinstance(s, ast.Assign) and unparse(s.targets[0]) == '_size' and unparse(s.value) == '0' for s in rest)
-        buffered = '_buffer' in unparse(d.value.args[0])
-        okbuf = (not buffered) or any(isinstance(s, ast.Assign) and unparse(s.targets[0]) == '_buffer' and unparse(s.value) == 'None' for s in rest)
-        srcok = buffered or unparse(d.value.args[0]) == 'memoryview(block[:_size])'
+        # the source may have been given a name earlier in the same block (frame = _buffer / frame = block[:_size])
+        srcarg = d.value.args[0]
+        inner = srcarg.args[0] if isinstance(srcarg, ast.Call) and dotted(srcarg.func) == 'memoryview' and len(srcarg.args) == 1 else srcarg
+        captured_at = None
+        if isinstance(inner, ast.Name):
+            defs_ = [(k_, s_) for k_, s_ in enumerate(blk[:i]) if isinstance(s_, ast.Assign) and len(s_.targets) == 1 and unparse(s_.targets[0]) == inner.id]
+            if len(defs_) == 1 and not any(inner.id in stores_in(s_) for s_ in blk[defs_[0][0] + 1:i]):
+                captured_at, inner = defs_[0][0], defs_[0][1].value
+        srctxt = f'memoryview({unparse(inner)})' if isinstance(srcarg, ast.Call) else unparse(inner)
+        buffered = '_buffer' in srctxt
+        d._buffered = buffered
+        resets = [k_ for k_, s_ in enumerate(blk) if isinstance(s_, ast.Assign) and unparse(s_.targets[0]) == '_buffer' and unparse(s_.value) == 'None']
+        # the buffer is released on this path: after the call, or before it once the call's source holds the buffer under another name
+        okbuf = (not buffered) or any(k_ > i for k_ in resets) or (captured_at is not None and any(captured_at < k_ < i for k_ in resets))
+        srcok = buffered or srctxt == 'memoryview(block[:_size])'
+        if not buffered and captured_at is not None:
+            # the chunk may be advanced between the capture and the call, but _size may not change
+            srcok = srcok and not any('_size' in stores_in(s_) for s_ in blk[captured_at + 1:i])
         chk.check(okd and okb and oks and okbuf and srcok, 'C14-S3', AS, D, f'frame completion ({"buffered" if buffered else "direct"})', '',
-                  f'after decompress_ptr: dest={dest!r} (ok={okd}), bytesout advanced={okb}, _size reset={oks}, buffer released={okbuf}, source={unparse(d.value.args[0])}',
+                  f'after decompress_ptr: dest={dest!r} (ok={okd}), bytesout advanced={okb}, _size reset={oks}, buffer released={okbuf}, source={srctxt}',
                   node=d)
     # ---- S4
     copy = [n for n in walk_no_nested(W) if isinstance(n, ast.Assign) and isinstance(n.targets[0], ast.Subscript) and unparse(n.targets[0].value) == '_buffer']
